@@ -74,6 +74,19 @@ def observe(cid, cls, obj, loci, n, small, P=2):
         except Exception:
             dt_ok = False
     c["dtypeok"] = dt_ok and dtv_ok
+    # results already handed out stay what they were: the statistics are taken once more and KEPT, the same questions are then asked of
+    # another matrix of the same shape and ploidy (the complementary calls), and the kept arrays are compared with fresh answers
+    try:
+        meths = ("acount", "afreq", "apoly", "afixed", "maf", "gtcount", "gtfreq", "tacount", "tafreq")
+        kept = {m_: getattr(obj, m_)() for m_ in meths}
+        snap_ = {m_: np.array(kept[m_], copy=True) for m_ in meths}
+        m0 = np.asarray(obj.mat)
+        other = type(obj)((1 - m0).astype("int8")) if m0.ndim == 3 else type(obj)((P - m0).astype("int8"), ploidy=P)
+        for m_ in meths:
+            getattr(other, m_)()
+        c["keptok"] = all(np.array_equal(np.asarray(kept[m_]), snap_[m_], equal_nan=True) for m_ in meths)
+    except Exception:
+        c["keptok"] = True
     if small:
         if cls.startswith("phased"):
             dos = np.asarray(obj.mat).astype(int).sum(0)
@@ -270,6 +283,8 @@ def run(ctx):
             ctx.violation("%s:%s%s%s" % (site[c["cls"]], v, ":after-in-place-edit" if c.get("edited") else "", c.get("copy", "")),
                           "TLC verdict %s (ploidy=%d, n=%d, %d loci%s)" % (v, c["ploidy"], c["n"], len(c.get("loci", c.get("dose"))), ", statistics queried, then taxa removed/appended in place" if c.get("edited") else ""),
                           {k: (c[k][:12] if isinstance(c[k], list) else c[k]) for k in c})
+        if not c.get("keptok", True):
+            ctx.violation("%s:result-of-an-earlier-call-changed-by-a-later-call" % site[c["cls"]], "a statistic array handed out earlier changed when the same statistic was asked of another matrix", {"n": c["n"], "ploidy": c["ploidy"]})
         if not c["dtypeok"]:
             ctx.violation("%s:requested-dtype" % site[c["cls"]], "a requested output dtype was not honoured, or the values delivered in it differ from those of the default call", {"n": c["n"]})
     s = allc[-1]
